@@ -102,8 +102,13 @@ func (c *Chan[T]) doSend(t *task, v T) *handoff[T] {
 func (c *Chan[T]) doRecv(t *task) (T, bool) {
 	var zero T
 	if len(c.real) > 0 {
+		// values put into the channel outside a simulation (package initialisation) carry no clock and sit in FRONT of
+		// the ones sent inside it: a clock is consumed only when every buffered value has one. (Consuming the first
+		// clock for a clock-less front value left a later receiver of the clocked value without its sender's edge - a
+		// false race on a free list filled in init(), found through refactoring rO.)
+		clocked := len(c.elemVC) == len(c.real)
 		v := <-c.real
-		if len(c.elemVC) > 0 {
+		if clocked {
 			t.vc.join(&c.elemVC[0])
 			c.elemVC = c.elemVC[1:]
 		}
